@@ -1039,20 +1039,31 @@ static void rayCases(const std::string &tn, long nCases, int stream)
       lo[ax] = hi[ax];
       hi[ax] = t;
     }
+    // ---- sometimes the whole scene sits far from the origin (exactly representable offsets):
+    // slab arithmetic that multiplies coordinates instead of differences by 1/dir then meets
+    // overflow for axis-parallel rays (1/0 is clamped to 2^126)
+    S off[4] = {S(0), S(0), S(0), S(0)};
+    if (r.chance(1, 3))
+      for (int i = 0; i < N; ++i) {
+        static const double offs[] = {0, 8, -8, 64, -64, 1024, -1024};
+        off[i]                     = (S)offs[r.below(7)];
+        lo[i] += off[i];
+        hi[i] += off[i];
+      }
     B box = canon ? B() : B(T::make(lo), T::make(hi));
     const bool boxEmpty = canon || inverted;
     // ---- origin
     S og[4], dr[4];
     bool orgInside = true, orgOnFace = false;
     for (int i = 0; i < N; ++i) {
-      S l = canon ? S(-1) : (lo[i] < hi[i] ? lo[i] : hi[i]), h = canon ? S(1) : (lo[i] < hi[i] ? hi[i] : lo[i]);
+      S l = canon ? S(-1) + off[i] : (lo[i] < hi[i] ? lo[i] : hi[i]), h = canon ? S(1) + off[i] : (lo[i] < hi[i] ? hi[i] : lo[i]);
       switch ((int)r.below(6)) {
       case 0: og[i] = l; break;
       case 1: og[i] = h; break;
       case 2: og[i] = (S)(((double)l + (double)h) / 2); break;
       case 3: og[i] = (S)r.real((double)l, (double)h); break;
-      case 4: og[i] = (S)((double)r.range(-8, 8) * 0.5); break;
-      default: og[i] = (S)r.real(-5, 5); break;
+      case 4: og[i] = (S)((double)r.range(-8, 8) * 0.5) + off[i]; break;
+      default: og[i] = (S)r.real(-5, 5) + off[i]; break;
       }
       if (!(og[i] >= l && og[i] <= h))
         orgInside = false;
